@@ -207,6 +207,13 @@ pub fn check_eq_pair<H: HueOps>(c: &mut Collector, x: H::T, y: H::T, l: &mut Loc
     if !(a && b && !n && t) {
         vq!(H, c, l, "equal-whole-turns", "eq", x, y, 1.0, json!({"x==y": a, "y==x": b, "x!=y": n, "hue(x)==y": t, "into_positive_degrees": [fj(H::pos(x).to64()), fj(H::pos(y).to64())]}), "equal: y = x + 360·k exactly, k integer");
     }
+    // the approx spellings of the same comparison
+    l.ops += 2;
+    l.preds += 12;
+    let (p, q) = (H::eq_approx(x, y), H::eq_approx(y, x));
+    if !(p.iter().all(|v| *v) && q.iter().all(|v| *v)) {
+        vq!(H, c, l, "equal-whole-turns-approx", "approx-eq", x, y, 1.0, json!({"[abs_diff_eq, !abs_diff_ne, relative_eq, !relative_ne, ulps_eq, !ulps_ne] (x,y)": p, "(y,x)": q, "into_degrees": [fj(H::deg(x).to64()), fj(H::deg(y).to64())]}), "equal under every approx comparison: y = x + 360·k exactly, k integer");
+    }
 }
 
 /// y = x + delta rounded to T; check_eq_pair decides whether the shift was exact.
@@ -233,6 +240,15 @@ pub fn check_ne<H: HueOps>(c: &mut Collector, x: H::T, y: H::T, l: &mut Loc) {
     let (a, b, n) = (H::eq(x, y), H::eq(y, x), H::ne(x, y));
     if a || b || !n {
         vq!(H, c, l, "unequal-beyond-rounding", "ne", x, y, d, json!({"x==y": a, "y==x": b, "x!=y": n, "circular_distance": d, "threshold": thr, "into_positive_degrees": [fj(H::pos(x).to64()), fj(H::pos(y).to64())]}), "unequal: exact distance mod 360 exceeds 4·max(ulp(x), ulp(y), ulp(360))");
+    }
+    // the approx traits (default tolerances) must call hues at least 0.2 degrees apart different
+    if d >= 0.2 {
+        l.ops += 2;
+        l.preds += 2;
+        let (p, q) = (H::ne_approx(x, y), H::ne_approx(y, x));
+        if !(p && q) {
+            vq!(H, c, l, "unequal-approx", "approx-ne", x, y, d, json!({"abs_diff/relative/ulps _ne all true and _eq all false (x,y)": p, "(y,x)": q, "circular_distance": d}), "every approx comparison (default tolerances) says different");
+        }
     }
 }
 
